@@ -615,6 +615,8 @@ func itoa64(k int64) string {
 type c13Fact struct {
 	ID  string
 	Use func(fn *ssa.Function, resp map[ssa.Value]bool, bind map[ssa.Value]int64) (edges []Edge, direct []ssa.Value)
+	// Instrs (optional): instructions whose execution establishes the fact (e.g. a store).
+	Instrs func(fn *ssa.Function, vals map[ssa.Value]bool) []ssa.Instruction
 }
 
 var c13SummaryMemo = map[string]bool{}
@@ -650,8 +652,15 @@ func c13FactCut(fn *ssa.Function, resp map[ssa.Value]bool, fact c13Fact, depth i
 }
 
 func c13FactCutBound(fn *ssa.Function, resp map[ssa.Value]bool, bind map[ssa.Value]int64, fact c13Fact, depth int) (*cut, map[ssa.Value]bool) {
-	edges, dvals := fact.Use(fn, resp, bind)
+	var edges []Edge
+	var dvals []ssa.Value
+	if fact.Use != nil {
+		edges, dvals = fact.Use(fn, resp, bind)
+	}
 	ct := newCut().Edges(edges...)
+	if fact.Instrs != nil {
+		ct.Instr(fact.Instrs(fn, resp)...)
+	}
 	direct := map[ssa.Value]bool{}
 	for _, d := range dvals {
 		for a := range Aliases(d) {
@@ -664,7 +673,18 @@ func c13FactCutBound(fn *ssa.Function, resp map[ssa.Value]bool, bind map[ssa.Val
 	calls, idxs := c13RespParamCalls(fn, resp)
 	for k, call := range calls {
 		h := StaticCallee(call)
-		if ErrResultIndex(h.Signature) < 0 || h == fn {
+		if h == fn {
+			continue
+		}
+		if rs := h.Signature.Results(); rs.Len() == 1 && types.Identical(rs.At(0).Type(), types.Typ[types.Bool]) {
+			// predicate helper: its true edge counts when every return that may be true passes the fact
+			if c13BoolHelperEstablishes(h, idxs[k], bind, fact, depth-1) {
+				te, _ := BoolTests(fn, Aliases(call))
+				ct.Edges(te...)
+			}
+			continue
+		}
+		if ErrResultIndex(h.Signature) < 0 {
 			continue
 		}
 		// integer parameters of the helper that receive constants at this call (e.g. the expected status)
@@ -715,6 +735,31 @@ func c13HelperEstablishesBound(h *ssa.Function, idx int, bind map[ssa.Value]int6
 		return false
 	}
 	ok := c13SuccessEscapes(h, h.Blocks[0], 0, ct, direct) == nil
+	c13SummaryMemo[key] = ok
+	return ok
+}
+
+// c13BoolHelperEstablishes: every return of the predicate h that may yield
+// true passes the fact about h's parameter #idx.
+func c13BoolHelperEstablishes(h *ssa.Function, idx int, bind map[ssa.Value]int64, fact c13Fact, depth int) bool {
+	key := fmt.Sprintf("bool|%p|%d|%s|%d", h, idx, fact.ID, depth)
+	if v, ok := c13SummaryMemo[key]; ok {
+		return v
+	}
+	c13SummaryMemo[key] = false
+	ct, _ := c13FactCutBound(h, Aliases(h.Params[idx]), nil, fact, depth)
+	if len(ct.edges) == 0 && len(ct.instrs) == 0 {
+		return false
+	}
+	ok := true
+	for _, a := range RetAtoms(h, 0) {
+		if cv, isConst := a.Val.(*ssa.Const); isConst && cv.Value != nil && cv.Value.Kind() == constant.Bool && !constant.BoolVal(cv.Value) {
+			continue
+		}
+		if c13AtomReach(h.Blocks[0], 0, a, ct) {
+			ok = false
+		}
+	}
 	c13SummaryMemo[key] = ok
 	return ok
 }
@@ -787,70 +832,69 @@ type c13CondClass func(cond ssa.Value) (trueImplies, falseImplies bool)
 // through every incoming value of the phi (a constant incoming value counts
 // when the edge it arrives on already lies behind the fact).
 func c13FactEdgesOfConds(fn *ssa.Function, classify c13CondClass) []Edge {
-	set := map[Edge]bool{}
-	list := func() []Edge {
-		var out []Edge
-		for e := range set {
-			out = append(out, e)
-		}
-		return out
+	return c13NewCondFacts(fn, classify).Edges()
+}
+
+// c13CondFacts: the fixpoint of fact edges of one function for one classifier.
+type c13CondFacts struct {
+	fn       *ssa.Function
+	classify c13CondClass
+	set      map[Edge]bool
+}
+
+func (cf *c13CondFacts) list() []Edge {
+	var out []Edge
+	for e := range cf.set {
+		out = append(out, e)
 	}
-	behind := func(e Edge) bool {
-		if set[e] {
-			return true
-		}
-		if len(set) == 0 {
-			return false
-		}
-		return !reach(fn.Blocks[0], 0, e.From.Instrs[len(e.From.Instrs)-1], newCut().Edges(list()...))
+	return out
+}
+
+// Behind: the edge is a fact edge or can only be reached over one.
+func (cf *c13CondFacts) Behind(e Edge) bool {
+	if cf.set[e] {
+		return true
 	}
-	var implies func(v ssa.Value, truth bool, depth int) bool
-	implies = func(v ssa.Value, truth bool, depth int) bool {
-		if depth > 6 {
-			return false
-		}
-		switch u := v.(type) {
-		case *ssa.UnOp:
-			if u.Op == token.NOT {
-				return implies(u.X, !truth, depth+1)
-			}
-		case *ssa.Const:
-			if u.Value != nil && u.Value.Kind() == constant.Bool {
-				return constant.BoolVal(u.Value) != truth // cannot have that truth value here
-			}
-		case *ssa.Phi:
-			for i, e := range u.Edges {
-				if implies(e, truth, depth+1) {
-					continue
-				}
-				if !behind(Edge{u.Block().Preds[i], u.Block()}) {
-					return false
-				}
-			}
-			return true
-		}
-		t, f := classify(v)
-		if truth {
-			return t
-		}
-		return f
+	if len(cf.set) == 0 {
+		return false
 	}
-	for round := 0; round < 4; round++ {
-		n := len(set)
-		for _, i := range Ifs(fn) {
-			cond, t, f := ifEdges(i)
-			if implies(cond, true, 0) {
-				set[t] = true
-			}
-			if implies(cond, false, 0) {
-				set[f] = true
-			}
-		}
-		if len(set) == n {
-			break
-		}
+	return !reach(cf.fn.Blocks[0], 0, e.From.Instrs[len(e.From.Instrs)-1], newCut().Edges(cf.list()...))
+}
+
+// Implies: boolean value v having the given truth value implies the fact.
+func (cf *c13CondFacts) Implies(v ssa.Value, truth bool, depth int) bool {
+	if depth > 6 {
+		return false
 	}
-	out := list()
+	switch u := v.(type) {
+	case *ssa.UnOp:
+		if u.Op == token.NOT {
+			return cf.Implies(u.X, !truth, depth+1)
+		}
+	case *ssa.Const:
+		if u.Value != nil && u.Value.Kind() == constant.Bool {
+			return constant.BoolVal(u.Value) != truth // cannot have that truth value here
+		}
+	case *ssa.Phi:
+		for i, e := range u.Edges {
+			if cf.Implies(e, truth, depth+1) {
+				continue
+			}
+			if !cf.Behind(Edge{u.Block().Preds[i], u.Block()}) {
+				return false
+			}
+		}
+		return true
+	}
+	t, f := cf.classify(v)
+	if truth {
+		return t
+	}
+	return f
+}
+
+func (cf *c13CondFacts) Edges() []Edge {
+	out := cf.list()
 	sort.Slice(out, func(i, j int) bool {
 		if out[i].From.Index != out[j].From.Index {
 			return out[i].From.Index < out[j].From.Index
@@ -858,6 +902,78 @@ func c13FactEdgesOfConds(fn *ssa.Function, classify c13CondClass) []Edge {
 		return out[i].To.Index < out[j].To.Index
 	})
 	return out
+}
+
+func c13NewCondFacts(fn *ssa.Function, classify c13CondClass) *c13CondFacts {
+	cf := &c13CondFacts{fn: fn, classify: classify, set: map[Edge]bool{}}
+	for round := 0; round < 4; round++ {
+		n := len(cf.set)
+		for _, i := range Ifs(fn) {
+			cond, t, f := ifEdges(i)
+			if cf.Implies(cond, true, 0) {
+				cf.set[t] = true
+			}
+			if cf.Implies(cond, false, 0) {
+				cf.set[f] = true
+			}
+		}
+		if len(cf.set) == n {
+			break
+		}
+	}
+	return cf
+}
+
+// c13PredicateClass lifts a classifier over calls of in-module predicate
+// helpers: `h(args…)` being true (false) implies the fact when every return of
+// h that may yield true (false) does — by its value or by lying behind the
+// fact's edges inside h.  mk builds the classifier inside a function from a
+// mapping of the caller's value sets to the callee's (parameter aliases).
+func c13PredicateClass(base func(fn *ssa.Function, sets []map[ssa.Value]bool) c13CondClass, fn *ssa.Function, sets []map[ssa.Value]bool, depth int) c13CondClass {
+	own := base(fn, sets)
+	return func(cond ssa.Value) (bool, bool) {
+		t, f := own(cond)
+		call, ok := cond.(*ssa.Call)
+		if !ok || depth <= 0 {
+			return t, f
+		}
+		h := StaticCallee(call)
+		if h == nil || !inModule(h) || len(h.Blocks) == 0 || h == fn || len(h.Params) != len(call.Call.Args) {
+			return t, f
+		}
+		if rs := h.Signature.Results(); rs.Len() != 1 || !types.Identical(rs.At(0).Type(), types.Typ[types.Bool]) {
+			return t, f
+		}
+		hs := make([]map[ssa.Value]bool, len(sets))
+		for k, set := range sets {
+			hs[k] = map[ssa.Value]bool{}
+			for i, a := range call.Call.Args {
+				if set[a] {
+					for x := range Aliases(h.Params[i]) {
+						hs[k][x] = true
+					}
+				}
+			}
+		}
+		cf := c13NewCondFacts(h, c13PredicateClass(base, h, hs, depth-1))
+		ht, hf := true, true
+		for _, a := range RetAtoms(h, 0) {
+			for _, truth := range []bool{true, false} {
+				if cf.Implies(a.Val, truth, 0) {
+					continue // cannot be / implies by value
+				}
+				if !c13AtomReach(h.Blocks[0], 0, a, newCut().Edges(cf.list()...)) {
+					continue // behind the fact
+				}
+				if truth {
+					ht = false
+				} else {
+					hf = false
+				}
+			}
+		}
+		return t || ht, f || hf
+	}
 }
 
 // c13CmpNorm: BinOp comparison with the operand in `left` on the left side
@@ -921,4 +1037,58 @@ func c13OrClass(cs ...c13CondClass) c13CondClass {
 		}
 		return t, f
 	}
+}
+
+// c13Leaf: one way a value is established: the resolved value and the phi
+// edges that select it (outermost first).
+type c13Leaf struct {
+	Val   ssa.Value
+	Edges []Edge
+}
+
+// c13Leaves expands v through phi nodes.
+func c13Leaves(v ssa.Value) []c13Leaf {
+	var out []c13Leaf
+	var rec func(v ssa.Value, edges []Edge, depth int)
+	rec = func(v ssa.Value, edges []Edge, depth int) {
+		if phi, ok := v.(*ssa.Phi); ok && depth < 8 {
+			for i, e := range phi.Edges {
+				ne := append(append([]Edge{}, edges...), Edge{phi.Block().Preds[i], phi.Block()})
+				rec(e, ne, depth+1)
+			}
+			return
+		}
+		out = append(out, c13Leaf{v, edges})
+	}
+	rec(v, nil, 0)
+	return out
+}
+
+// c13ChainReach: is there a path from (fromB, fromIdx) through the phi edges
+// of the leaf (innermost first) to target that avoids the cut?
+func c13ChainReach(fromB *ssa.BasicBlock, fromIdx int, edges []Edge, target ssa.Instruction, c *cut) bool {
+	if len(edges) == 0 {
+		return reach(fromB, fromIdx, target, c)
+	}
+	cur := edges[len(edges)-1]
+	if !reach(fromB, fromIdx, cur.From.Instrs[len(cur.From.Instrs)-1], c) || c.edges[cur] {
+		return false
+	}
+	for i := len(edges) - 2; i >= -1; i-- {
+		tgt := target
+		if i >= 0 {
+			nb := edges[i].From
+			tgt = nb.Instrs[len(nb.Instrs)-1]
+		}
+		if !reach(cur.To, 0, tgt, c) {
+			return false
+		}
+		if i >= 0 {
+			cur = edges[i]
+			if c.edges[cur] {
+				return false
+			}
+		}
+	}
+	return true
 }
